@@ -547,6 +547,6 @@ def run(tier, seed):
 MANIFEST = {
     "engine": "G",
     "technique": "exhaustive fault enumeration on real share files: every deleted subset x every corrupted subset x corruption kind x verify flag, through check / check_and_repair of a verify-cap-only node, judged against byte-level ground truth",
-    "text": "For 2-of-4 and 3-of-5 files every combination of deleted and corrupted shares (six corruption kinds; thorough adds independent kinds per share, extra empty servers, single-segment files and every single-byte flip of a share) is materialised on real storage servers. The real Checker/Verifier and Repairer run from the verify-cap only; reported good shares, healthy/recoverable flags and counters are compared with a byte comparison against the original upload; after repair the pre-existing intact share files must be unchanged, every share written must equal the original encoding in all validated fields, and with all pre-existing shares deleted the file must read back from the repaired shares.",
+    "text": "For 2-of-4 and 3-of-5 files every combination of deleted and corrupted shares (six corruption kinds; thorough adds independent kinds per share, extra empty servers, single-segment files and every single-byte flip of a share) is materialised on real storage servers. The real Checker/Verifier and Repairer run from the verify-cap only; reported good shares, healthy/recoverable flags and counters are compared with a byte comparison against the original upload; after repair the pre-existing intact share files must be unchanged, every share written must equal the original encoding in all validated fields, and with all pre-existing shares deleted the file must read back from the repaired shares. Part (c): every assignment of a server subset to each share number (several shares per server, duplicated share numbers, empty servers) on 2..3 servers, with check, check_and_repair and a read judged against the placement.",
     "note": "Default delivery schedule on honest servers. Counted, not judged (statement silent): corrupt shares that the repairer leaves in place because the server claims to have them, lease renewals on existing shares, the list of corrupt shares.",
 }
